@@ -51,7 +51,7 @@ def run(ctx):
 
     # ---------------- (a) scorers ----------------
     for it in range(ctx.n(60, 600)):
-        p = rng.choice([1, 2, 3, 4])
+        p = rng.choice([1, 2, 3, 4, 5])
         n = rng.randint(8, 30)
         X = np.asarray([[rng.gauss(0, 2) + (3 if (t > n // 2 and j == 0) else 0) for j in range(p)] for t in range(n)])
         if it % 5 == 4:
@@ -59,7 +59,7 @@ def run(ctx):
         perm = list(range(p))
         rng.shuffle(perm)
         shift = np.asarray([rng.choice([-7.5, 2.0, 11.25]) for _ in range(p)])
-        a = rng.choice([0.5, 3.0, 8.0, 3.0e-5, 2.0e-4])
+        a = rng.choice([0.5, 3.0, 8.0, 3.0e-5, 2.0e-4, 0.1, 0.02])
         scale = float(np.sum(X ** 2)) * max(1, a * a) + float(np.sum(shift ** 2)) * n + n * 50
         Xp, Xs, Xa, Xr = X[:, perm], X + shift, X * a, X[::-1].copy()
         inp0 = {"n": n, "p": p, "X": X.tolist(), "perm": perm, "shift": shift.tolist(), "scale": a}
@@ -124,11 +124,28 @@ def run(ctx):
             inp = dict(inp0, scorer=name, cuts=cuts.tolist())
             try:
                 base = mk().fit(X).evaluate(cuts)
+            except RuntimeError:
+                continue          # the documented error of the reference run (a sample covariance that is not positive definite)
+            try:
                 vp = mk().fit(Xp).evaluate(cuts)
                 vs = mk().fit(Xs).evaluate(cuts)
                 va = mk().fit(Xa).evaluate(cuts)
                 vr = mk().fit(Xr).evaluate(mirrored)
-            except RuntimeError:
+            except RuntimeError as ex:
+                # positive definiteness of a sample covariance is itself invariant under column permutation, shift, positive scaling and reversal: when the
+                # reference run succeeds on WELL-CONDITIONED segments, the transformed run must succeed too
+                def well_conditioned():
+                    for c_ in cuts:
+                        for a_, b_ in list(zip(c_[:-1], c_[1:])) + [(c_[0], c_[-1])]:
+                            seg = X[a_:b_]
+                            if len(seg) > p:
+                                ev = np.linalg.eigvalsh(np.cov(seg.T, ddof=0).reshape(p, p))
+                                if ev[0] <= 1e-6 * ev[-1]:
+                                    return False
+                    return True
+                if well_conditioned():
+                    v(f"{name}: evaluate works on X but raises {type(ex).__name__} ({str(ex)[:80]}) on a permuted / shifted / scaled (factor {a}) / reversed copy although every "
+                      f"segment's covariance is well conditioned", inp, {"what": "symmetry-error", "scorer": name})
                 continue
             ctx.case({"s": name, "X": X.tolist(), "cuts": cuts.tolist()}, nontrivial=True,
                      sample={"scorer": name, "p": p, "cuts": cuts.tolist()[:2], "values": base.tolist()[:2]})
@@ -292,3 +309,37 @@ def run(ctx):
                     if len(set(sav)) == p and sorted(perm[c] for c in cols1) != cols0:
                         v(f"MVCAPA: affected columns of [{l},{r}) are not permuted with the data: {cols0} vs {sorted(perm[c] for c in cols1)} (perm {perm})",
                           {"tables": stabs, "perm": perm, "anomaly": [l, r]}, {"what": "permutation-columns", "detector": "MVCAPA"})
+    # ---- MVCAPA through labelled frames: the affected columns are POSITIONS; permuting a frame's columns permutes them and the dense per-column labels accordingly ----
+    from harness.variants import variants_stream
+    from skchange.anomaly_detectors import MVCAPA as _MVCAPA12
+    variants_stream(ctx, "MVCAPA", lambda: _MVCAPA12(min_segment_length=2, max_segment_length=30), ctx.n(3, 16), p_choices=(2, 3, 4),
+                    flat_make=lambda: _MVCAPA12(min_segment_length=2, collective_penalty_scale=1e6, point_penalty_scale=1e6))
+    rng12 = np.random.default_rng(ctx.seed + 1212)
+    for it in range(ctx.n(6, 40)):
+        p = int(rng12.integers(2, 5))
+        n = int(rng12.integers(40, 70))
+        Xn = rng12.normal(size=(n, p))
+        a0 = int(rng12.integers(5, n // 2))
+        Xn[a0:a0 + 8, 0] += 9.0
+        Xn[n - 12:n - 6, p - 1] -= 8.0
+        perm = list(rng12.permutation(p))
+        while perm == list(range(p)):
+            perm = list(rng12.permutation(p))
+        base = _MVCAPA12(min_segment_length=2).fit(Xn)
+        y0 = base.predict(Xn)
+        ref = [(int(l), int(r), sorted(int(c) for c in cc)) for l, r, cc in zip(y0["ilocs"].array.left, y0["ilocs"].array.right, y0["icolumns"])]
+        t0 = base.transform(Xn).to_numpy()
+        for tag, frame in (("integer labels kept", pd.DataFrame(Xn)[perm]), ("string labels", pd.DataFrame(Xn, columns=[f"v{j}" for j in range(p)])[[f"v{j}" for j in perm]])):
+            d = _MVCAPA12(min_segment_length=2).fit(frame)
+            y = d.predict(frame)
+            got = [(int(l), int(r), sorted(int(c) for c in cc)) for l, r, cc in zip(y["ilocs"].array.left, y["ilocs"].array.right, y["icolumns"])]
+            want = [(l, r, sorted(perm.index(c) for c in cc)) for l, r, cc in ref]
+            tt = d.transform(frame).to_numpy()
+            inp = {"detector": "MVCAPA", "n": n, "p": p, "perm": [int(v) for v in perm], "X": Xn.tolist(), "labels": tag}
+            ctx.case({"mvcapa_perm": it, "tag": tag}, nontrivial=len(ref) > 0)
+            if got != want:
+                ctx.violation(f"MVCAPA on a frame with permuted columns ({tag}): anomalies / affected positions {got}, expected the permuted ones {want}", inp,
+                              {"what": "mvcapa-permutation", "detector": "MVCAPA"})
+            elif tt.shape != t0.shape or not np.array_equal(tt, t0[:, perm]):
+                ctx.violation(f"MVCAPA.transform on a frame with permuted columns ({tag}) is not the column-permuted transform of X", inp,
+                              {"what": "mvcapa-permutation-dense", "detector": "MVCAPA"})
